@@ -264,6 +264,34 @@ func genSize(r *kit.Rng, max int) int {
 	}
 }
 
+// manyMessages gives most results an error text of its own kind: 150–400 distinct messages per sequence.
+func manyMessages(r *kit.Rng, rs []res, s *kit.Summary) []res {
+	ports := int(r.Range(150, 400))
+	distinct := map[string]bool{}
+	for i := range rs {
+		if !r.Chance(0.8) {
+			continue
+		}
+		p := 40000 + r.Pick(ports)
+		switch r.Pick(6) {
+		case 0:
+			rs[i].Err = fmt.Sprintf("Get \"%s\": read tcp [::1]:%d->[::1]:8080: read: connection reset by peer", rs[i].URL, p)
+		case 1:
+			rs[i].Err = fmt.Sprintf("dial tcp 127.0.0.1:%d: connect: connection refused — ünïcödé ✓ %d", p, p)
+		case 2:
+			rs[i].Err = fmt.Sprintf("request %d: %s", p, strings.Repeat("very long explanation ", 12))
+		default:
+			rs[i].Err = fmt.Sprintf("read tcp [::1]:%d->[::1]:8080: i/o timeout", p)
+		}
+		distinct[rs[i].Err] = true
+	}
+	s.Count("errors:many_distinct_messages")
+	if len(distinct) > 100 {
+		s.Count("errors:more_than_100_distinct_messages")
+	}
+	return rs
+}
+
 func genSequence(r *kit.Rng, n int, s *kit.Summary) []res {
 	nm, nu, nc, ne := 1+r.Pick(len(methods)), 1+r.Pick(len(urls)), 1+r.Pick(len(codes)), 1+r.Pick(len(messages))
 	errMode := r.Pick(4)
@@ -563,6 +591,11 @@ func runC20(c *run.Ctx, s *kit.Summary) {
 	for i := 0; i < n; i++ {
 		size := genSize(r, 10000)
 		sq := sequence{Results: genSequence(r, size, s)}
+		if i%20 == 7 {
+			// hundreds of distinct error messages on one Metrics instance (transport errors carry an ephemeral port)
+			size = int(r.Range(300, 800))
+			sq.Results = manyMessages(r, genSequence(r, size, s), s)
+		}
 		if r.Chance(0.5) {
 			sq.Workers = int(r.Range(2, 16))
 			s.Count("concurrent")
